@@ -84,3 +84,13 @@ Definition normalize_target (seen root raw : str) : str :=
 Definition seen_cwd (user_cwd root : str) : str :=
   if targets_normalized_in_user_cwd then user_cwd else root.
 Definition cli_target (user_cwd root raw : str) : str := normalize_target (seen_cwd user_cwd root) root raw.
+
+(* ---------- paths the director hands back to a step over RPC (api.get_info) ---------- *)
+(* what api.py does to a root-relative path q of an RPC result field, by the mapping found in the source;
+   an unrecognised mapping is modelled as "handed on as it is" *)
+Definition back_apply (m : back_map) (cwd : str) (env : environ) (q : str) : str :=
+  match m with
+  | BackTranslate => translate_back cwd env q translate_back_default_workdir
+  | BackUnknown => q
+  end.
+Definition is_back_translate (m : back_map) : bool := match m with BackTranslate => true | BackUnknown => false end.
